@@ -2,11 +2,12 @@
 half of C18).  The oracle is the extracted RFC 1951/1950 specification run on the bytes the
 implementation really emitted; the level-0 model (control plane + stored engine) is compared
 line by line wherever it applies."""
+import re
 import zlib
 
 from . import core, streams
 from .core import hx, parse_fields
-from .props import Ctx, build_all, conclude, correspondence, data_classes, execute, load_replay, oracle_run
+from .props import fib_data, Ctx, build_all, conclude, correspondence, data_classes, execute, load_replay, oracle_run
 from .inflate_checks import core_show, standard_run
 
 MODEL_DEFLATE_OPS = {"cparams", "ccall", "ccallf", "cdrive", "dfcall", "dfdrive", "cvec", "cflags"}
@@ -99,6 +100,12 @@ def c01_cases(ctx):
         ops = ["in %s" % hx(data)] + ["cvecrt %d %d @" % (level, z) for level in ([4, 6, 9] if not thorough else range(4, 11)) for z in (0, 1)]
         k += 1
         ctx.add("q%d" % k, ops, kind="rt", data=data)
+    # symbol statistics that drive the Huffman length limiter (optimal depth > 15) at every kind of level
+    for j in range(4 if not thorough else 24):
+        data = fib_data(rng, M=[1, 8, 64, None][j % 4])
+        ops = ["in %s" % hx(data)] + ["cvecrt %d %d @" % (level, rng.below(2)) for level in ([1, 2, 6, 9] if not thorough else range(1, 11))]
+        k += 1
+        ctx.add("f%d" % k, ops, kind="rt", data=data)
     # all 256 levels on small inputs; values above 10 behave as 10
     for j in range(6 if not thorough else 30):
         data = data_classes(rng, rng.choice([0, 1, 5, 300, 3000]))
@@ -207,7 +214,7 @@ def c02_cases(ctx, sink_variants=True):
         if which == 0:
             ops.append("cdrive @ %s" % sched_comp(rng))
         elif which == 1:
-            ops.append("dfdrive @ %s" % sched_comp(rng).replace(":5", ":0").replace(":6", ":0").replace(":7", ":0"))
+            ops.append("dfdrive @ %s" % re.sub(r":[567](,|$)", r":0\1", sched_comp(rng)))
         else:
             # callback sink: explicit calls, all callback invocations accepted
             cuts = sorted(set([0, n] + [rng.range(0, n) for _ in range(rng.range(0, 3))]))
@@ -339,6 +346,8 @@ def c02_eval(ctx):
                     elif st != "1":
                         if m["kind"] == "stream" and m.get("sink") == 2 and len(m["data"]) > 20:
                             continue
+                        if f.get("why") == "cap":
+                            continue    # ended by the driver's cap on the number of calls, not by the compressor
                         bad = "legal schedule ending in Finish did not reach Done (status %s, %s)" % (st, str({x: f.get(x) for x in ('why', 'calls', 'in')}))
                     elif tag == "debug":
                         o = orc.get("%s.%d" % (cid, k))
@@ -401,6 +410,15 @@ def c10_cases(ctx):
                            "cdrive @ %s" % rng.choice(["100000000:200000:4", sched_comp(rng)])]
                     k += 1
                     ctx.add("t%d" % k, ops, kind="tok", data=data, fmt=fmt, level=level, strat=strat, wb=wb)
+    # deep Huffman trees (length limiter, 15-bit codes, runs of rare literals): the block writer must still emit a stream
+    # the reference decoder accepts
+    for j in range(12 if ctx.tier == "quick" else 80):
+        data = fib_data(rng, M=[1, 8, 64][j % 3], S=[31, 40, 4, 0][j % 4])
+        level, strat = rng.choice([1, 1, 6, 9, 2, 4]), [2, 3, 0][(j // 3) % 3]
+        fmt = rng.choice([0, 2])
+        k += 1
+        ctx.add("h%d" % k, ["in %s" % hx(data), "cparams %d %d %d 15" % (fmt, level, strat), "cdrive @ 100000000:200000:4"],
+                kind="tok", data=data, fmt=fmt, level=level, strat=strat, wb=15)
     # effectiveness: X ++ X, 64 <= |X| <= 4096, matching enabled
     for level in range(1, 11):
         for strat in (0, 1, 4):
@@ -433,6 +451,8 @@ def c10_eval(ctx):
             eff_level, eff_strat = 1, 3
         elif m["wb"] < 15:
             eff_level = min(m["level"], 1)
+        if f.get("why") == "cap":
+            continue    # the driver's cap on the number of calls ended the schedule before the stream did: nothing to judge
         if o["verdict"] != "done":
             bad = "independent decoder rejects the output: %s %s" % (o["verdict"], o.get("ekind", ""))
         elif o.get("o") != core_show(m["data"][:int(f.get("in", 0))]):
@@ -512,6 +532,18 @@ def c11_cases(ctx):
                 ops = ["in %s" % hx(data), "cparams 0 %d %d %d" % (level, strat, wb), "cdrive @ %s" % rng.choice(["100000000:200000:4", "3000:100000:0"])]
                 k += 1
                 ctx.add("w%d" % k, ops, kind="win", data=data, fmt=0, level=level, strat=strat, wb=wb, dist=dist)
+    # histories: the settings are changed after construction (the declared window must stay the one fixed at construction
+    # unless the change is refused); implementation only
+    for wb in range(8, 15):
+        for how in ("csetfmt 1 %d", "csetfmt 0 %d", "csetlevel %d"):
+            for l1 in ([2, 6, 9] if ctx.tier == "quick" else range(0, 11)):
+                lim = 1 << max(wb, 8)
+                dist = max(1, min(32768, rng.choice([lim + 1, lim + rng.range(1, 1000), 2 * lim, 32768])))
+                data = far_repeat_data(rng, dist, 3 * dist + rng.range(0, 100))
+                l0 = rng.choice([0, 1, 6])
+                ops = ["in %s" % hx(data), "cparams 0 %d 0 %d" % (l0, wb), how % l1, "cdrive @ 100000000:200000:4"]
+                k += 1
+                ctx.add("y%d" % k, ops, model=False, kind="win", data=data, fmt=0, level=l1, strat=0, wb=wb, dist=dist)
 
 
 def c11_eval(ctx):
@@ -519,7 +551,7 @@ def c11_eval(ctx):
     items = []
     second = []
     for cid, ops in ctx.cases:
-        f = parse_fields(ctx.impl.get((cid, 3), ("", ""))[1])
+        f = parse_fields(ctx.impl.get((cid, len(ops)), ("", ""))[1])
         full = f.get("full", "-")
         items.append((cid, True, full))
         if full != "-" and len(full) >= 4:
@@ -532,7 +564,7 @@ def c11_eval(ctx):
     for cid, ops in ctx.cases:
         m = ctx.meta[cid]
         o = orc[cid]
-        f = parse_fields(ctx.impl.get((cid, 3), ("", ""))[1])
+        f = parse_fields(ctx.impl.get((cid, len(ops)), ("", ""))[1])
         full = f.get("full", "-")
         bad = None
         if full == "-" or f.get("st") != "1":
